@@ -86,6 +86,8 @@ class SeqRef:
             return self.bev(e[1], T) ^ self.bev(e[2], T)
         if k == "bitof":
             return (self.inp[e[1]] >> e[2]) & 1
+        if k == "rtbit":
+            return (self.inp[e[1]] >> ((self.inp[e[2]] >> e[3]) & 3)) & 1
         raise AssertionError(k)
 
     def cond(self, c, T):
